@@ -563,6 +563,83 @@ pub fn run_tcancel_case(case: &TCCase, ctx: &mut CaseCtx) -> Result<(), String> 
     })
 }
 
+
+// ---------------------------------------------------------------------------
+// (a3) the database becomes read-only while a handle is being constructed
+// ---------------------------------------------------------------------------
+
+/// "read-only ... through its database": the database-level flag is set while a collection handle is
+/// still being opened / created - inside its open callback, i.e. after the constructor has looked
+/// at the flag and before the handle is registered with the database (seeded change C06-4). The
+/// handle that comes out must be read-only like every other one.
+#[derive(Clone, Debug, Serialize, Deserialize)]
+pub struct OCase {
+    /// false: an existing collection is reopened; true: a new collection is created
+    pub create: bool,
+    pub api: Api,
+}
+
+fn open_race_cases() -> Vec<OCase> {
+    let mut v = vec![];
+    for create in [false, true] {
+        for api in [Api::Add, Api::Update, Api::Remove, Api::Flush, Api::SaveExt, Api::RemoveExt, Api::CompactBtree, Api::CompactBm25, Api::Reconcile] {
+            v.push(OCase { create, api });
+        }
+    }
+    v
+}
+
+pub fn run_open_race_case(case: &OCase, ctx: &mut CaseCtx) -> Result<(), String> {
+    vf_core::block_on(async {
+        let env = setup(&[fresh_spec(1), fresh_spec(2)], &[fresh_spec(3)], yielding).await?;
+        let idx = IndexSet::all();
+        let name = if case.create { "docs2" } else { "docs" };
+        if !case.create {
+            env.db.close_collection("docs").await.map_err(|e| format!("close_collection failed: {e}"))?;
+        }
+        let db = &env.db;
+        let idx2 = idx.clone();
+        let h = db
+            .open_or_create_collection(schema(), anda_db::collection::CollectionConfig { name: name.into(), description: "d".into() }, async move |c: &mut Collection| {
+                for (fields, on) in idx2.btrees() {
+                    if on {
+                        c.create_btree_index_nx(fields).await?;
+                    }
+                }
+                c.create_bm25_index_nx(&["body"]).await?;
+                // the transition: while this handle is still being constructed
+                db.set_read_only(true);
+                Ok(())
+            })
+            .await;
+        let h = match h {
+            Ok(h) => h,
+            Err(_) => {
+                // the open / create itself noticed the flag (its own post-callback flush is refused):
+                // no handle came out, nothing to retain
+                ctx.label(if case.create { "create_refused_by_the_flag" } else { "open_refused_by_the_flag" });
+                ctx.nontrivial = true;
+                return Ok(());
+            }
+        };
+        let prefix = format!("vdb/{name}/");
+        let mark = env.ctl.log_len();
+        let what = format!("the database was set read-only inside the {} callback of {name:?}; {:?} on the handle that came out", if case.create { "create" } else { "open" }, case.api);
+        let r = call_api(&h, case.api, 1).await;
+        let r2 = call_api(&h, case.api, 2).await;
+        let writes: Vec<String> = env.ctl.log().iter().skip(mark).filter(|(op, p)| op.is_mutation() && p.starts_with(&prefix)).map(|(op, p)| format!("{op:?} {p}")).collect();
+        if r.is_ok() || r2.is_ok() {
+            return Err(format!("{what}: the call returned Ok although the database is read-only (is_read_only = {})", db.is_read_only()));
+        }
+        if !writes.is_empty() {
+            return Err(format!("{what}: wrote {writes:?}"));
+        }
+        ctx.label(if case.create { "created_while_flag_set" } else { "reopened_while_flag_set" });
+        ctx.nontrivial = true;
+        Ok(())
+    })
+}
+
 // ---------------------------------------------------------------------------
 // (b) a transition racing in-flight operations
 // ---------------------------------------------------------------------------
@@ -1063,6 +1140,13 @@ pub fn run(r: &mut Runner) {
         true,
         cancel_cases(),
         run_cancel_case,
+    );
+    r.sub_enum(
+        "read_only_set_while_a_handle_is_opened",
+        "the database-level read-only flag is set INSIDE the open / create callback of a collection (after the constructor looked at the flag, before the handle is registered) x 9 mutating calls issued twice on the handle that comes out: every call an error, no write under the collection's prefix. Non-trivial = always",
+        true,
+        open_race_cases(),
+        run_open_race_case,
     );
     r.sub_enum(
         "transition_cancellation_every_poll",
